@@ -169,6 +169,7 @@ NameObj(id) ==
       [] id = "undefined:inference" -> X("undefined", "inference", << >>)
       [] id = "Any" -> X("any", "", << >>)
       [] id = "TD" -> X("td", "TD", << >>)
+      [] id = "TDN" -> X("td", "TDN", << >>)        \* class TDN(TypedDict): p: int; q: NotRequired[str]  (DefVarargs.tla)
       [] id = "NT" -> X("newtype", "NT", << >>)
       [] id \in {"T", "TB", "TC"} -> X("typevar", id, << >>)
       [] id \in BareNames -> X("bare", id, << >>)
@@ -284,6 +285,7 @@ CallableV(sig) == Mk("Callable", "", <<sig>>)
 EllipsisParam == ParamV("...", "ELLIPSIS", NoDefault, AnyV("unannotated"))      \* signature.py:1994
 AnySig == SigV(<<EllipsisParam>>, AnyV("explicit"))                             \* signature.py:1995
 TDValue == V("TypedDict", "a:int:required,b:str:required", << >>)
+TDNValue == V("TypedDict", "p:int:required,q:str:optional", << >>)
 TypeVarV(id) ==
     V("TypeVar", id,
       CASE id = "TB" -> <<V("bound", "", <<TypedV("int")>>)>>                   \* make_type_var_value :550
@@ -370,7 +372,7 @@ ImplRt(r, au) ==
                           -> Mk("Unpacked", "", <<ImplOriginArgs(r, FALSE)>>)
       [] r.k \in {"alias", "unpackedalias", "bare", "union", "literal", "annotated", "final", "unpack"}
                           -> ImplOriginArgs(r, au)                                            \* :413 get_origin(val) is not None
-      [] r.k = "td" -> TDValue                                                                \* :421 _TypedDictMeta
+      [] r.k = "td" -> IF r.id = "TDN" THEN TDNValue ELSE TDValue                                                                \* :421 _TypedDictMeta
       [] r.k = "any" -> AnyV("explicit")                                                      \* :469
       [] r.k \in {"class", "nonetype", "abccallable"} -> MaybeTyped(r)                        \* :471 isinstance(val, type)
       [] r.k = "none" -> KnownNone                                                            \* :473
